@@ -140,6 +140,99 @@ SPECIAL = {
 HELPER_OF = {'_vlookup_default': '_vlookup', '_date_str': '_date', '_value_parts': '_value'}
 
 
+def _strings(alpha, n, lo=0):
+    import itertools
+    return [''.join(t) for k in range(lo, n + 1) for t in itertools.product(alpha, repeat=k)]
+
+
+def _lists(vals, n):
+    import itertools
+    return [list(t) for k in range(n + 1) for t in itertools.product(vals, repeat=k)]
+
+
+def native_grid(key, ns):
+    """finite argument grid for the helpers whose symbolic differential does not close (floats, regex, C-level date parsing): every tuple is run on
+    both copies natively.  Exhaustive over the stated box, NOT a solver verdict."""
+    import datetime as dt
+    import itertools
+    E = ns['KG'].EmptyCell
+    mixed = [0, 1, -1, 2.5, 1e-9, 10 ** 17, '', 'a', 'A', 'ab', '1', '1.0', '-1', '1e3', True, False, None, dt.date(2024, 1, 1), dt.datetime(2024, 1, 1), dt.datetime(2024, 1, 1, 12), [1]]
+    if key == '_compare':
+        return [(o, a, b) for o in ns['OPS'] for a in mixed for b in mixed]
+    if key == '_concat_arrays_values':
+        return [(a, b) for a in _lists([1, 'a', None, 2.5], 2) for b in _lists([0, 'b', True], 2)]
+    if key == '_normalize_float_number':
+        return [(x / 8,) for x in range(-3000, 3000)] + [(m * 10.0 ** e,) for m in (1, 3, 7, 123456789, 0.1 + 0.2) for e in range(-20, 20)] + [(0,), (0.0,), (-0.0,), (1e300,), (float('inf'),), ('a',), (None,)]
+    if key == '_regexp':
+        return [(p,) for p in _strings('ab?*~[].', 4)] + [(p,) for p in _strings('a?*~\\(|+$^{', 3)]
+    if key == '_average':
+        return [(l,) for l in _lists([0, 1, -2, True, False, 2.5, 'a'], 3)]
+    if key == '_count':
+        return [([[a]], b, a) for a in _lists([0, 'a', None, True, '7', 2.5], 2) for b in _lists([1, 'b', False], 2)]
+    if key in ('_round', '_roundup', '_rounddown'):
+        return [(m / 16, n) for m in range(-1500, 1500) for n in range(-2, 4)] + [(m, n) for m in (-1260, -15, -1, 0, 1, 5, 15, 25, 1250, 1260, 99999) for n in range(-3, 3)] + [(2.5, 0.0), (2.5, '1'), ('a', 1), (True, 0)]
+    if key == '_date_str':
+        return [(y,) for y in _strings('0129x', 3)]
+    if key == '_date':
+        return [(y, m, d) for y in (0, 1, 99, 1899, 1900, 2023, 2024, 9999, 10000, -1) for m in range(-13, 26) for d in (-40, -1, 0, 1, 28, 29, 30, 31, 32, 70)]
+    if key == '_address':
+        return [(r, c, t, a1, sh) for r in (1, 7, 100) for c in (1, 26, 27, 52, 702, 703, 800) for t in ('0', '1', '2', '3', '4', '5', 1, 4) for a1 in ('True', 'False', True, False, 0) for sh in ('Sh', 'my sheet')] + \
+               [(r, c) for r in (1, 9) for c in (1, 28)] + [(1, 1, 1), (1, 1, '4'), (1, 1, 4, False)]
+    if key == '_averageifs':
+        return [([a], [b], (lambda x, t=t: x > t)) for a in _lists([0, 1, 5], 3) for b in _lists([0, 1, 5], 3) for t in (0, 3)]
+    if key == '_ifs':
+        return [(l,) for l in _lists([0, 1, True, False, 'a', '#N/A'], 4)]
+    if key == '_search':
+        return [(f, t, st) for f in _strings('aA?*~', 2, 1) for t in _strings('aA?*~', 3) for st in (None, 0, 1, 2, 3, 4)]
+    if key == '_excel_value_to_string':
+        return [(v,) for v in mixed if not isinstance(v, list)] + [(E(),)]
+    if key == '_value':
+        return [(t,) for t in _strings('019 ,.%-:/', 4)] + [(t,) for t in ('12/31/2024', '31.12.2024', '2024-01-31', '1 234,5', '12:30', '1e3', '$5', '5%', '', ' ', 'abc', '١٢')] + [(5,), (2.5,), (None,), (True,)]
+    if key == '_parse_date_obj':
+        return [(t,) for t in _strings('0123456789-/a', 3)] + [(t,) for t in ('2024-01-31', '31/01/2024', '01/31/2024', '2024-1-1', '2024-01-31 10:00:00', '>2024-01-31')] + [(dt.datetime(2024, 1, 1),), (dt.date(2024, 1, 1),), (5,), (None,)]
+    if key in ('_left', '_right'):
+        return [(t, n) for t in _strings('aB', 3) + [E(), 0, 12, None] for n in (None, -1, 0, 1, 2, 5)]
+    if key == '_mid':
+        return [(t, k, n) for t in _strings('aB', 3) + [E(), 12] for k in (-1, 0, 1, 2, 5) for n in (-1, 0, 1, 5)]
+    if key in ('_or', '_and'):
+        return [(l + [m, [m]],) for l in _lists([0, 1, True, False], 2) for m in _lists([0, True], 2)] + [([],), ([[]],), ([[[1]], 0],)]
+    if key in ('_min', '_max', '_sum', '_count_blank'):
+        return [(l,) for l in _lists([0, 3, -2, 'a', '', None, True, 2.5], 3)] + [([E(), 1],), ([E()],)]
+    if key == '_flatten_list':
+        return [(l,) for l in ([], [1], [[1], [2, [3]]], [[], [[]]], [1, [2, [3, [4]]]], ['ab', ['c']])]
+    if key == '_index':
+        return [(ar, r, c, a) for ar in ([[1, 2], [3, 4]], ([[1, 2], [3, 4]], [[5, 6], [7, 8]]), [[1, 2, 3]], [[1], [2], [3]]) for r in (None, 0, 1, 2, 3) for c in (None, 0, 1, 2, 3) for a in (None, 1, 2, 3)]
+    if key == 'EmptyCell':
+        return [(v, o) for v in mixed + [E()] for o in ('__lt__', '__le__', '__gt__', '__ge__', '__eq__', '__ne__', '__str__', '__hash__', '__bool__', '__repr__')]
+    return None
+
+
+def run_native_grid(report, key, helper, ns):
+    grid = native_grid(key if key in ('EmptyCell',) else helper, ns)
+    if grid is None:
+        return
+    t0 = time.time()
+    G, B, same, outcome = ns['G'], ns['B'], ns['same'], ns['outcome']
+    bad = None
+    for args in grid:
+        if key == 'EmptyCell':
+            v, o = args
+            x, y = outcome(lambda: getattr(ns['KG'].EmptyCell(), o)(*(() if o in ('__str__', '__hash__', '__bool__', '__repr__') else (v,)))), outcome(lambda: getattr(ns['KB'].EmptyCell(), o)(*(() if o in ('__str__', '__hash__', '__bool__', '__repr__') else (v,))))
+        else:
+            x, y = outcome(lambda: getattr(G, helper)(*args)), outcome(lambda: getattr(B, helper)(*args))
+        if not same(x, y):
+            bad = (args, x, y)
+            break
+    cname = f'grid.{key}'
+    if bad:
+        shown = ', '.join(repr(a) if not callable(a) else '<lambda>' for a in bad[0])
+        detail = f'{helper}({shown}): emitted class -> {bad[1]}, base class -> {bad[2]}'
+        report.condition(cname, 'grid', 'violated', time.time() - t0, len(grid), detail)
+        report.violation(cname, f'{helper}({shown})', detail)
+    else:
+        report.condition(cname, 'grid', 'holds', time.time() - t0, len(grid), f'both copies agree on all {len(grid)} argument tuples of the native grid (exhaustive over the box; not a solver verdict)')
+
+
 def members(src, clsname):
     t = ast.parse(src)
     for n in t.body:
@@ -244,11 +337,21 @@ def run(report, tier, seed):
     ''', encodes=('AbstractExcelInPython.set_arguments/_cell_preprocessor/exec_function_in/__init__', 'ExcelInPython.set_arguments/_cell_preprocessor/exec_function_in/__init__'),
           timeout=120 if tier == 'quick' else 400)
     report.bound('tier 2 has no bound (identical AST); tier 3: lists len<=3-4, ASCII texts len<=2-4 (7 for error texts), small integer boxes per helper; stateful: '
-                 '2 set_arguments calls, overrides in -3..3, 6 cells')
+                 '2 set_arguments calls, overrides in -3..3, 6 cells; native grids (conditions grid.*): finite argument boxes per helper, run on both copies for helpers whose ASTs differ (thorough: all)')
     report.assume('identical normalised AST + identical module-level bindings => identical behaviour (trusts CPython determinism)',
                   '_today (clock), ExcelInPythonException (empty class) have no differential harness; if their ASTs differ the check reports inconclusive')
     report.extra['programs'] = len(set(a) | set(b))
     s.run(report)
+    # native grids: for every helper whose ASTs differ (quick) / every helper with a grid (thorough)
+    ns = {'__name__': '_c20_native'}
+    exec(compile(PRE, '_c20_pre.py', 'exec'), ns)
+    done = set()
+    for key in list(TABLE) + ['_left', '_right', '_mid', '_date', '_flatten_list']:
+        helper = HELPER_OF.get(key, key)
+        if helper in done or not (tier == 'thorough' or helper in differ):
+            continue
+        done.add(helper)
+        run_native_grid(report, helper if key != 'EmptyCell' else 'EmptyCell', helper, ns)
     report.extra['disagreements_checked'] = len(differ)
 
 
